@@ -97,6 +97,48 @@ func argRole(v ssa.Value) (role string, base ssa.Value) {
 			}
 		}
 	}
+	// prefix := s; if i := strings.IndexByte(s, '\n'); i >= 0 { prefix = s[:i] } — the merge of s
+	// (no newline found) and s[:i] (found at i) is what strings.Cut(s, "\n") gives first
+	if phi, ok := v.(*ssa.Phi); ok && len(phi.Edges) == 2 {
+		for k := 0; k < 2; k++ {
+			sl, isSl := strip(phi.Edges[k]).(*ssa.Slice)
+			if !isSl || sl.Low != nil || sl.High == nil || strip(phi.Edges[1-k]) != strip(sl.X) {
+				continue
+			}
+			idx, isCall := strip(sl.High).(*ssa.Call)
+			if !isCall || (calleeName(&idx.Call) != "strings.Index" && calleeName(&idx.Call) != "strings.IndexByte") || strip(argsOf(idx)[0]) != strip(sl.X) {
+				continue
+			}
+			if sep, isC := sepConstOf(argsOf(idx)[1]); !isC || sep != "\n" {
+				continue
+			}
+			found := func(fs []Fact) (bool, bool) { // (decided, idx >= 0)
+				for _, f := range fs {
+					bo, ok := f.Cond.(*ssa.BinOp)
+					if !ok || strip(bo.X) != ssa.Value(idx) {
+						continue
+					}
+					kk, isC := intConst(bo.Y)
+					if !isC {
+						continue
+					}
+					switch {
+					case bo.Op == token.GEQ && kk == 0, bo.Op == token.GTR && kk == -1, bo.Op == token.NEQ && kk == -1:
+						return true, f.Pol
+					case bo.Op == token.LSS && kk == 0, bo.Op == token.LEQ && kk == -1, bo.Op == token.EQL && kk == -1:
+						return true, !f.Pol
+					}
+				}
+				return false, false
+			}
+			d1, f1 := found(edgeFactsOf(phi, k))
+			d2, f2 := found(edgeFactsOf(phi, 1-k))
+			if d1 && f1 && (!d2 || !f2) {
+				r, b := argRole(sl.X)
+				return "cutnl(" + r + ")", b
+			}
+		}
+	}
 	return describe(v), nil
 }
 
